@@ -375,6 +375,98 @@ fn blocked_sink_case(st: &mut Stats, seed: u64, i_ms: u64, t_ms: u64, k: u32) {
     st.nontrivial(mix(seed, u64::from(k) + 77));
 }
 
+/// A live peer behind a slow link, with an application that keeps the outbound queue busy (a closed loop of a few datagrams in
+/// flight): Pings wait their turn in the queue like everything else, reach the peer, are answered at once - the endpoint never
+/// times out, and the peer sees (about) one Ping per interval.
+fn busy_link_case(st: &mut Stats, seed: u64, i_ms: u64, t_ms: u64) {
+    st.evaluations += 1;
+    st.engine("SIM", 1);
+    let mut rng = Rng64::new(mix(seed, 0x16C));
+    let cfg = EpCfg { keepalive: Some((i_ms, t_ms)), rwnd: 4, dgram_buf: 64, ..EpCfg::default() };
+    let tp_ms = t_ms.max(i_ms);
+    let sh = sim::Shared::new(mix(seed, 5), rng.below(3) as u8);
+    let horizon_ms = 12 * tp_ms;
+    let window = rng.range(2, 5) as usize;
+    let read_every_ms = rng.range(1, 4);
+    let end = sim::run_with_watchdog(&sh, Duration::from_millis(horizon_ms + 10_000_000), move |sh| async move {
+        // the endpoint's outgoing link holds one message at a time: the peer's reading pace is the link's pace
+        let (w0, w1, _net) = memws::pair(&sh, [1, 0], [None, None], false);
+        let e0 = wl::endpoint(&sh, 0, &cfg, w0, seed);
+        let mut raw = Raw::new(w1);
+        let mux = e0.mux.clone();
+        let app = sim::spawn(&sh, 7301, async move {
+            let mk = |k: u32| penguin_mux::Datagram { flow_id: k, target_host: bytes::Bytes::from_static(b"busy."), target_port: 9, data: bytes::Bytes::from(vec![7u8; 40]) };
+            let mut k = 0u32;
+            for _ in 0..window {
+                k += 1;
+                if mux.send_datagram(mk(k)).await.is_err() {
+                    return;
+                }
+            }
+            while mux.get_datagram().await.is_ok() {
+                k += 1;
+                if mux.send_datagram(mk(k)).await.is_err() {
+                    return;
+                }
+            }
+        });
+        let t_end = tokio::time::Instant::now() + Duration::from_millis(horizon_ms);
+        let mut task = e0.task;
+        let mut returned = false;
+        let mut pings = 0u64;
+        let mut dgrams = 0u64;
+        loop {
+            tokio::select! {
+                biased;
+                r = &mut task, if !returned => { let _ = r; returned = true; break; }
+                () = tokio::time::sleep_until(t_end) => break,
+                g = async { tokio::time::sleep(Duration::from_millis(read_every_ms)).await; raw.recv().await } => {
+                    match g {
+                        Got::Ping => { pings += 1; raw.send_msg(Message::Pong).await; }
+                        Got::Frame(RefFrame::Datagram { id, .. }) => {
+                            dgrams += 1;
+                            raw.send(&RefFrame::Datagram { id, port: 9, host: b"echo.".to_vec(), data: vec![1, 2, 3] }).await;
+                        }
+                        Got::End | Got::Err | Got::Close => break,
+                        _ => {}
+                    }
+                }
+            }
+        }
+        app.abort();
+        app.await.ok();
+        drop(e0.mux);
+        (returned, pings, dgrams)
+    });
+    let log = sh.take_log();
+    let o = observe(&log);
+    let cfgs = format!("I={i_ms}ms T={t_ms}ms, {window} datagrams kept in flight by the application, the peer reads one message every {read_every_ms} ms and answers every Ping at once");
+    let mut fail = |st: &mut Stats, sig: String, detail: String| {
+        st.violation(Violation { signature: sig, detail: format!("{detail} [{cfgs}]"),
+            replay: json!({"kind": "c16-busy-link", "run_seed": seed, "I_ms": i_ms, "T_ms": t_ms, "window": window, "read_every_ms": read_every_ms,
+                "task_return": o.ret.as_ref().map(|(t, r)| format!("{r} at {} ms", t / 1000)), "trace_tail": sim::render(&log, 40)}) });
+    };
+    match end {
+        sim::RunEnd::Finished((returned, pings, dgrams)) => {
+            st.target("busy_link_runs", 1);
+            st.count("busy_link_datagrams_relayed", dgrams);
+            st.count("busy_link_pings_seen_by_peer", pings);
+            st.nontrivial(mix(seed, 0xB5 + pings));
+            if dgrams < 20 {
+                st.inconclusive.push(format!("c16 busy link: only {dgrams} datagrams went through"));
+                return;
+            }
+            if returned {
+                fail(st, "live-peer-timed-out|busy-link".into(), format!("the connection task returned {:?} although the peer answered every Ping it was sent at once; it saw {pings} Pings in {horizon_ms} ms", o.ret));
+            } else if pings * 2 * i_ms < horizon_ms {
+                fail(st, "pings-not-sent|busy-link".into(), format!("in {horizon_ms} ms the peer saw {pings} Pings (one per interval would be about {})", horizon_ms / i_ms));
+            }
+        }
+        sim::RunEnd::Stalled => fail(st, "stall|busy-link".into(), "the run did not finish within the horizon".into()),
+        sim::RunEnd::Panicked(m) => st.inconclusive.push(format!("harness panic in c16 busy link: {m}")),
+    }
+}
+
 pub fn run(p: &Params) -> (Stats, &'static str) {
     std::panic::set_hook(Box::new(|_| {}));
     sim::install_observer();
@@ -445,6 +537,14 @@ pub fn run(p: &Params) -> (Stats, &'static str) {
                 let _ = rep;
             }
         }
+    }
+    // a live peer behind a slow link while the application keeps the outbound queue busy
+    for (j, (i_ms, t_ms)) in [(500u64, 1000u64), (1000, 1000), (700, 2100), (2000, 5000)].into_iter().enumerate() {
+        idx += 1;
+        if idx % p.nshards != p.shard {
+            continue;
+        }
+        busy_link_case(&mut st, mix(base, 0xB5B5 + j as u64), i_ms, t_ms);
     }
     // a peer that dies behind a full send buffer: nothing can be sent, flushed or closed any more
     for (j, (i_ms, t_ms)) in [(1000u64, 1000u64), (1000, 3000), (2000, 5000), (5000, 2000), (700, 700), (250, 1750)].into_iter().enumerate() {
